@@ -654,6 +654,7 @@ func vfRunCoA(f []string) string {
 	out := []string{}
 	buf := make([]byte, 8192)
 	var sentDgs [][]byte
+	var sentAt []int64
 	for k := 0; k < n; k++ {
 		kv := map[string]string{}
 		for p < len(f) && f[p] != "|" {
@@ -673,6 +674,25 @@ func vfRunCoA(f []string) string {
 		var before, after vfStatSnap
 		var outcome string
 		var evs []string
+		// clock handshakes (no blind sleeps: the instants actually used are printed as tb/ta and judged by the model):
+		// align=<ms> sends in the early part of a wall-clock second, after=<k>:<ms> not before <ms> after packet k was sent
+		if v, ok := kv["align"]; ok {
+			lim, _ := strconv.Atoi(v)
+			for time.Now().Nanosecond()/1_000_000 >= lim {
+				time.Sleep(5 * time.Millisecond)
+			}
+		}
+		if v, ok := kv["after"]; ok {
+			x := strings.SplitN(v, ":", 2)
+			k, _ := strconv.Atoi(x[0])
+			ms, _ := strconv.ParseInt(x[1], 10, 64)
+			if k < len(sentAt) {
+				for time.Now().UnixMilli() < sentAt[k]+ms {
+					time.Sleep(5 * time.Millisecond)
+				}
+			}
+		}
+		var tb, ta int64
 		for attempt := 0; ; attempt++ {
 			if d, ok := kv["dup"]; ok { // byte-identical copy of an earlier datagram of this case
 				k, _ := strconv.Atoi(d)
@@ -685,6 +705,7 @@ func vfRunCoA(f []string) string {
 				dg, now = vfBuildCoA(kv)
 			}
 			before = vfSnap(c.stats)
+			tb = time.Now().UnixMilli()
 			sock.WriteToUDP(dg, dst)
 			// Completion is detected without timing: a correctly signed Disconnect-Request for the session
 			// "~sentinel" from the first configured client follows the test datagram through the single
@@ -708,6 +729,7 @@ func vfRunCoA(f []string) string {
 					return strings.Join(out, " ; ") + " HANG-bus"
 				}
 			}
+			ta = time.Now().UnixMilli()
 			after = vfSnap(c.stats)
 			// remove the sentinel's own counts
 			{
@@ -734,7 +756,8 @@ func vfRunCoA(f []string) string {
 		}
 		sock.Close()
 		sentDgs = append(sentDgs, dg)
-		line := fmt.Sprintf("now=%d dg=%s %s st=%s", now, vfHex(dg), outcome, vfStatDelta(before, after, hosts))
+		sentAt = append(sentAt, tb)
+		line := fmt.Sprintf("now=%d dg=%s tb=%d ta=%d %s st=%s", now, vfHex(dg), tb, ta, outcome, vfStatDelta(before, after, hosts))
 		if outcome == "reply" {
 			ra, ma := "-", "-"
 			// independent verification under the secret of the first client net containing the source
